@@ -45,7 +45,7 @@ def rust_text(t, qualify=False):
     if k == "map3":
         return ("std::collections::HashMap" if qualify else "HashMap") + f"<{rust_text(t['key'])}, {rust_text(t['val'])}, RandomState>"
     if k == "array":
-        return f"[{rust_text(t['e'])}; 3]"
+        return f"[{rust_text(t['e'])}; {t.get('len', 3)}]"
     if k == "slice":
         return f"&'static [{rust_text(t['e'])}]"
     if k == "ref":
@@ -72,7 +72,37 @@ SUPPORT = ("#[typeshare]\npub struct User { pub u: u32 }\n#[typeshare]\npub stru
 RENAMES = {"Ren": "RenDto"}
 
 
-def source(tree, default_attr=None, positions=("field", "vfield", "payload", "alias")):
+def sibling_of(x):
+    """python mirror of MC_C05!Sib for trees that do not come from the builder (random trees); arrays of the sibling have another length"""
+    k = x["k"]
+    if k == "prim":
+        return dict(x, n="u32" if x["n"] == "String" else "String")
+    if k in ("vec", "array", "slice", "option", "ref", "path", "wrap"):
+        return dict(x, e=sibling_of(x["e"]), **({"len": 5} if k == "array" else {}))
+    if k in ("map", "map3"):
+        return dict(x, val=sibling_of(x["val"]))
+    if k == "user" and len(x.get("args", [])) == 1:
+        return dict(x, args=[sibling_of(x["args"][0])])
+    return x
+
+
+def with_lengths(x):
+    """the builder's sibling tree, arrays given the sibling's length"""
+    if not isinstance(x, dict):
+        return x
+    y = {a: (with_lengths(b) if isinstance(b, dict) else [with_lengths(c) for c in b] if isinstance(b, list) else b) for a, b in x.items()}
+    if y.get("k") == "array":
+        y["len"] = 5
+    return y
+
+
+def source(tree, default_attr=None, positions=("field", "vfield", "payload", "alias"), sibling=None):
+    if sibling is not None:
+        # items that sort (and are generated) BEFORE the hosts of the same kind: AheadA < HostA (aliases), Ahead < Host (structs), AheadE < HostE
+        g2 = "<T>" if mentions_param(sibling) else ""
+        st = rust_text(sibling)
+        return (source(tree, default_attr, positions) + f"#[typeshare]\npub type AheadA{g2} = {st};\n#[typeshare]\npub struct Ahead{g2} {{\n    pub f: {st},\n    pub g: Vec<{st}>,\n}}\n"
+                f'#[typeshare]\n#[serde(tag = "t", content = "c")]\npub enum AheadE{g2} {{\n    Pay({st}),\n    Sv {{\n        f: {st},\n    }},\n}}\n')
     ty = rust_text(tree)
     g = "<T>" if mentions_param(tree) else ""
     fattrs = list(default_attr or []) + ([OVERRIDE] if mentions_ovr(tree) else [])
@@ -161,17 +191,22 @@ CONFIGS = [
                              "swift": {"default_decorators": ["Sendable"], "default_generic_constraints": ["Sendable"], "codablevoid_constraints": ["Equatable"]},
                              }),
     ("mapped_container", "", {}, {l: {"type_mappings": {"Vec<u8>": n}} for l, n in (("typescript", "Uint8Array"), ("go", "Blob"), ("python", "bytes"))}),
+    ("after_sibling", "", {}, None),
 ]
 VECU8 = {"typescript": "Uint8Array", "go": "Blob", "python": "bytes"}
 
 
-def run_trees(chk, cases, configs=("base",), positions=("field", "vfield", "payload", "alias")):
-    """cases: [(rust_tree, default_attr(list)|None, default_is_bare(bool))] -> (events, meta)"""
+def run_trees(chk, cases, configs=("base",), positions=("field", "vfield", "payload", "alias"), siblings=None):
+    """cases: [(rust_tree, default_attr(list)|None, default_is_bare(bool))] -> (events, meta). siblings: rust_text(tree) -> MC_C05!Sib(tree)"""
     events, meta = [], []
-    srcs = [source(t, da, positions) for t, da, _ in cases]
+    srcs0 = [source(t, da, positions) for t, da, _ in cases]
     for cname, prefix, mapping, cfgs in CONFIGS:
         if cname not in configs:
             continue
+        srcs = srcs0
+        if cname == "after_sibling":
+            srcs = [source(t, da, positions, sibling=with_lengths((siblings or {}).get(rust_text(t))) or sibling_of(t)) if not mentions_ovr(t) else s0
+                    for (t, da, _), s0 in zip(cases, srcs0)]
         langs = ["swift", "kotlin"] if cname.startswith("prefixed") else ["go", "swift"] if cname == "lang_options" else ["typescript", "go", "python"] if cname == "mapped_container" else common.LANGS
         results = observe.generate(srcs, langs=langs, cfgs=cfgs)
         for ci, ((tree, da, bare), per, src) in enumerate(zip(cases, results, srcs)):
